@@ -1,5 +1,9 @@
 import NA.Model.Status
-/-! Invariants of the status file along arbitrary histories (helper lemmas for C13). -/
+/-! Invariants of the status file along arbitrary histories (helper lemmas for C13).
+
+Since the repair of `status.SetApprove` (a failed approve first saves a successful approve that is
+newer than the compare record into the compare slot) the invariant `Inv` is preserved by EVERY
+event without side hypothesis: a failed approve never changes the policy that `check` derives. -/
 namespace NA.C13
 
 def Status.approveGood (v : Status) : Bool :=
@@ -14,34 +18,22 @@ structure TimesOK (w : World) : Prop where
   ares  : w.st.approve.time = 0 → w.st.approve.result = .none
   nowarn : w.st.approve.result ≠ .warnings
 
-/-- The hazard: a failed approve overwrites a successful approve that is newer than an
-UPTODATE compare record (the two-slot file then falls back to that stale compare). -/
-def hazard (w : World) : Bool :=
-  w.cur != 0 && w.st.approveGood && decide (w.st.compare.time < w.st.approve.time)
-    && w.st.compare.result == .uptodate
+/-- Shape of the compare slot in every reachable status. -/
+def CmpOK (v : Status) : Prop :=
+  v.compare.result = .uptodate ∨ v.compare.result = .diff ∨ (v.compare.result = .none ∧ v.compare.time = 0)
 
-/-- No failed approve ever happens in a hazard state (decidable on every concrete history). -/
-def failSafeB : List (Event × Nat) → World → Bool
-  | [], _ => true
-  | e :: es, w => (if e.1 = .approveFailed then !hazard w else true) && failSafeB es (step w e)
+/-- OBSOLETE since the repair of `SetApprove`: there is no hazard state any more.  The two names
+are kept, as constants, only because the driver `NA/Drv/C13.lean` prints the fields `hz=` and
+`safe=` (now constantly 0 and 1). -/
+def hazard (_ : World) : Bool := false
 
-def FailSafe (es : List (Event × Nat)) (w : World) : Prop := failSafeB es w = true
-
-instance (es : List (Event × Nat)) (w : World) : Decidable (FailSafe es w) := by
-  unfold FailSafe; infer_instance
-
-theorem FailSafe.cons {e : Event × Nat} {es : List (Event × Nat)} {w : World} (h : FailSafe (e :: es) w) :
-    (e.1 = .approveFailed → hazard w = false) ∧ FailSafe es (step w e) := by
-  unfold FailSafe failSafeB at h
-  simp only [Bool.and_eq_true] at h
-  refine ⟨fun he => ?_, h.2⟩
-  have := h.1
-  simpa [he] using this
+def failSafeB (_ : List (Event × Nat)) (_ : World) : Bool := true
 
 /-- Main invariant: whatever policy `check` derives from the status file is what the
 latest conclusive observation says the device carries. -/
 structure Inv (w : World) : Prop where
   times : TimesOK w
+  cmp : CmpOK w.st
   dp_le : devicePolicy w.st ≤ w.cur
   sound : devicePolicy w.st ≠ 0 →
             w.obs = .carries (w.codeOf (devicePolicy w.st)) (devicePolicy w.st)
@@ -56,7 +48,7 @@ theorem codeAt_append (codes : List Code) (c : Code) (p : Nat) (h : p ≤ codes.
     simp [List.getD_eq_getElem?_getD, List.getElem?_append_left this]
 
 theorem inv_init : Inv ({} : World) := by
-  refine ⟨⟨by simp, by simp, by simp, by simp, by simp, by simp⟩, by simp [devicePolicy], ?_⟩
+  refine ⟨⟨by simp, by simp, by simp, by simp, by simp, by simp⟩, by simp [CmpOK], by simp [devicePolicy], ?_⟩
   simp [devicePolicy]
 
 theorem devicePolicy_cases (v : Status) :
@@ -72,14 +64,97 @@ theorem devicePolicy_cases (v : Status) :
 
 
 
-theorem dp_setApprove_failed (v : Status) (p now : Nat)
-    (hz : (v.approveGood && decide (v.compare.time < v.approve.time) && (v.compare.result == .uptodate)) = false)
+theorem setApprove_failed_keep (ar cr : Res) (ap atm cp ct p now : Nat)
+    (hk : ct < atm ∧ (ar = .ok ∨ ar = .warnings)) :
+    setApprove ⟨⟨ar, ap, atm⟩, ⟨cr, cp, ct⟩⟩ p true now
+      = ⟨⟨.failed, p, now⟩, ⟨.uptodate, ap, atm⟩⟩ := by
+  rcases hk.2 with h | h <;> simp [setApprove, hk.1, h]
+
+theorem setApprove_failed_nokeep (ar cr : Res) (ap atm cp ct p now : Nat)
+    (hk : ¬ (ct < atm ∧ (ar = .ok ∨ ar = .warnings))) :
+    setApprove ⟨⟨ar, ap, atm⟩, ⟨cr, cp, ct⟩⟩ p true now
+      = ⟨⟨.failed, p, now⟩, ⟨cr, cp, ct⟩⟩ := by
+  simp only [setApprove, Bool.true_and]
+  have : (decide (ct < atm) && (ar == Res.ok || ar == Res.warnings)) = false := by
+    cases hd : decide (ct < atm) && (ar == Res.ok || ar == Res.warnings) with
+    | false => rfl
+    | true =>
+      exfalso; apply hk
+      simp only [Bool.and_eq_true, decide_eq_true_eq, Bool.or_eq_true, beq_iff_eq] at hd
+      exact hd
+  simp [this]
+
+/-- A failed approve never changes the policy derived from the status file. -/
+theorem dp_setApprove_failed_eq (v : Status) (p now : Nat)
     (hne : v.approve.time = v.compare.time → v.compare.time = 0)
-    (h : devicePolicy (setApprove v p true now) ≠ 0) :
+    (hares : v.approve.time = 0 → v.approve.result = .none)
+    (hc : CmpOK v) :
     devicePolicy (setApprove v p true now) = devicePolicy v := by
   obtain ⟨⟨ar, ap, atm⟩, ⟨cr, cp, ct⟩⟩ := v
-  cases ar <;> cases cr <;>
-    simp_all [devicePolicy, setApprove, Status.approveGood] <;> omega
+  unfold CmpOK at hc
+  simp only at hne hares hc
+  by_cases hk : ct < atm ∧ (ar = .ok ∨ ar = .warnings)
+  · rw [setApprove_failed_keep _ _ _ _ _ _ _ _ hk]
+    have h0 : 0 < atm := by omega
+    have hn : ¬ atm < ct := by omega
+    rcases hk.2 with h | h <;> subst h <;> simp [devicePolicy, h0, hn]
+  · rw [setApprove_failed_nokeep _ _ _ _ _ _ _ _ hk]
+    by_cases hg : ar = .ok ∨ ar = .warnings
+    · have hlt : atm < ct := by
+        have h1 : ¬ ct < atm := fun h => hk ⟨h, hg⟩
+        have h2 : atm ≠ 0 := by
+          intro h0; have := hares h0; rcases hg with h | h <;> rw [h] at this <;> cases this
+        have h3 : atm ≠ ct := fun e => h2 (by have := hne e; omega)
+        omega
+      have h0 : 0 < ct := by omega
+      have hcr : cr = .uptodate ∨ cr = .diff := by
+        rcases hc with h | h | h
+        · exact Or.inl h
+        · exact Or.inr h
+        · omega
+      rcases hg with h | h <;> rcases hcr with h' | h' <;> subst h <;> subst h' <;>
+        simp [devicePolicy, hlt, h0]
+    · cases ar <;> simp_all [devicePolicy]
+
+/-- Bookkeeping facts of `setApprove` (both outcomes). -/
+theorem setApprove_facts (v : Status) (p now clock : Nat) (failed : Bool)
+    (hat : v.approve.time ≤ clock) (hct : v.compare.time ≤ clock)
+    (hcres : v.compare.time = 0 → v.compare.result = .none) :
+    (setApprove v p failed now).approve.time = now ∧
+    (setApprove v p failed now).approve.result ≠ .none ∧
+    (setApprove v p failed now).approve.result ≠ .warnings ∧
+    (setApprove v p failed now).compare.time ≤ clock ∧
+    ((setApprove v p failed now).compare.time = 0 → (setApprove v p failed now).compare.result = .none) := by
+  obtain ⟨⟨ar, ap, atm⟩, ⟨cr, cp, ct⟩⟩ := v
+  cases failed
+  · simp_all [setApprove]
+  · by_cases hk : ct < atm ∧ (ar = .ok ∨ ar = .warnings)
+    · rw [setApprove_failed_keep _ _ _ _ _ _ _ _ hk]
+      refine ⟨rfl, by simp, by simp, by simpa using hat, ?_⟩
+      intro h0; simp at h0; omega
+    · rw [setApprove_failed_nokeep _ _ _ _ _ _ _ _ hk]
+      exact ⟨rfl, by simp, by simp, by simpa using hct, by simpa using hcres⟩
+
+theorem cmpOK_setApprove (v : Status) (p now : Nat) (failed : Bool) (hc : CmpOK v) :
+    CmpOK (setApprove v p failed now) := by
+  obtain ⟨⟨ar, ap, atm⟩, ⟨cr, cp, ct⟩⟩ := v
+  unfold CmpOK at *
+  cases failed
+  · simpa [setApprove] using hc
+  · by_cases hk : ct < atm ∧ (ar = .ok ∨ ar = .warnings)
+    · rw [setApprove_failed_keep _ _ _ _ _ _ _ _ hk]; simp
+    · rw [setApprove_failed_nokeep _ _ _ _ _ _ _ _ hk]; simpa using hc
+
+/-- `TimesOK` after a `setApprove` at a later time. -/
+theorem times_of_setApprove (w w' : World) (p now : Nat) (failed : Bool) (hnow : w.clock < now)
+    (ht : TimesOK w) (hst : w'.st = setApprove w.st p failed now) (hcl : w'.clock = now) :
+    TimesOK w' := by
+  obtain ⟨hat, hct, _, hcres, _, _⟩ := ht
+  obtain ⟨f1, f2, f3, f4, f5⟩ := setApprove_facts w.st p now w.clock failed hat hct hcres
+  refine ⟨by rw [hst, hcl, f1]; exact Nat.le_refl _, by rw [hst, hcl]; omega, ?_, by rw [hst]; exact f5,
+    ?_, by rw [hst]; exact f3⟩
+  · rw [hst, f1]; intro e; omega
+  · rw [hst, f1]; intro e; omega
 
 theorem dp_setCompare_same (v : Status) (p now : Nat) (h : v.approve.time < now) :
     devicePolicy (setCompare v p false now) = p := by
@@ -114,132 +189,6 @@ theorem times_setCompare (v : Status) (p now clock : Nat) (ch : Bool) (hnow : cl
   obtain ⟨⟨ar, ap, atm⟩, ⟨cr, cp, ct⟩⟩ := v
   cases ch <;> simp_all [setCompare] <;> (try split) <;> (try simp_all) <;> omega
 
-theorem inv_step (w : World) (e : Event × Nat) (h : Inv w)
-    (hs : e.1 = .approveFailed → hazard w = false) : Inv (step w e) := by
-  obtain ⟨ev, dt⟩ := e
-  obtain ⟨⟨hat, hct, hne, hcres, hares, hnw⟩, hle, hsound⟩ := h
-  cases ev with
-  | newPolicy c =>
-    simp only [step]
-    refine ⟨⟨by simp; omega, by simp; omega, by simpa using hne, by simpa using hcres, by simpa using hares, by simpa using hnw⟩, ?_, ?_⟩
-    · simp [World.cur] at *; omega
-    · intro hd
-      have := hsound hd
-      simp only [World.cur] at hle
-      simp only []
-      simp only [World.codeOf] at this ⊢
-      rw [codeAt_append _ _ _ hle]
-      simpa using this
-  | approveOk =>
-    simp only [step]
-    by_cases hc : w.cur = 0
-    · simp only [World.cur] at hc
-      simp only [World.cur, hc, if_true]
-      refine ⟨⟨by simp; omega, by simp; omega, by simpa using hne, by simpa using hcres, by simpa using hares, by simpa using hnw⟩, ?_, ?_⟩
-      · simpa [World.cur, hc] using hle
-      · intro hd; simpa [World.codeOf] using hsound hd
-    · have hc' : ¬ w.codes.length = 0 := by simpa [World.cur] using hc
-      simp only [World.cur, hc', if_false]
-      have hdp : devicePolicy (setApprove w.st w.codes.length false (w.clock + dt + 1)) = w.codes.length := by
-        rw [devicePolicy_cases]; simp [setApprove, Status.approveGood]; omega
-      refine ⟨⟨by simp [setApprove], by simp [setApprove]; omega, ?_, by simpa [setApprove] using hcres, by simp [setApprove], by simp [setApprove]⟩, ?_, ?_⟩
-      · simp [setApprove]; omega
-      · simp only []; rw [hdp]; simp [World.cur]
-      · intro _; simp only []; rw [hdp]; simp [World.curCode, World.cur, World.codeOf, codeAt]
-  | approveFailed =>
-    simp only [step]
-    by_cases hc : w.cur = 0
-    · simp only [World.cur] at hc
-      simp only [World.cur, hc, if_true]
-      refine ⟨⟨by simp; omega, by simp; omega, by simpa using hne, by simpa using hcres, by simpa using hares, by simpa using hnw⟩, ?_, ?_⟩
-      · simpa [World.cur, hc] using hle
-      · intro hd; simpa [World.codeOf] using hsound hd
-    · have hc' : ¬ w.codes.length = 0 := by simpa [World.cur] using hc
-      simp only [World.cur, hc', if_false]
-      have hz := hs rfl
-      refine ⟨⟨by simp [setApprove], by simp [setApprove]; omega, ?_, by simpa [setApprove] using hcres, by simp [setApprove], by simp [setApprove]⟩, ?_, ?_⟩
-      · simp [setApprove]; omega
-      all_goals
-        have key := dp_setApprove_failed w.st w.codes.length (w.clock + dt + 1)
-          (by simpa [hazard, World.cur, hc'] using hz) hne
-      · by_cases hz0 : devicePolicy (setApprove w.st w.codes.length true (w.clock + dt + 1)) = 0
-        · simp only []; rw [hz0]; omega
-        · simp only []; rw [key hz0]; simpa [World.cur] using hle
-      · intro hd
-        simp only [] at hd ⊢
-        have hk := key hd
-        rw [hk] at hd ⊢
-        simpa [World.codeOf] using hsound hd
-  | compare =>
-    simp only [step]
-    by_cases hc : w.cur = 0
-    · simp only [World.cur] at hc
-      simp only [World.cur, hc, if_true]
-      refine ⟨⟨by simp; omega, by simp; omega, by simpa using hne, by simpa using hcres, by simpa using hares, by simpa using hnw⟩, ?_, ?_⟩
-      · simpa [World.cur, hc] using hle
-      · intro hd; simpa [World.codeOf] using hsound hd
-    · have hc' : ¬ w.codes.length = 0 := by simpa [World.cur] using hc
-      simp only [World.cur, hc', if_false, World.curCode, World.codeOf]
-      suffices aux : ∀ ch : Bool, Inv
-          { codes := w.codes, removed := w.removed, dev := w.dev,
-            st := setCompare w.st w.codes.length ch (w.clock + dt + 1), clock := w.clock + dt + 1,
-            obs := if ch = true then Obs.differs else Obs.carries (codeAt w.codes w.codes.length) w.codes.length } from
-        aux _
-      intro ch
-      have hnow : w.clock < w.clock + dt + 1 := by omega
-      obtain ⟨ha, hct', hne', hcres'⟩ :=
-        times_setCompare w.st w.codes.length (w.clock + dt + 1) w.clock ch hnow hat hct hne hcres
-      refine ⟨⟨by simp only []; rw [ha]; omega, hct', hne', hcres', by simp only []; rw [ha]; exact hares,
-        by simp only []; rw [ha]; exact hnw⟩, ?_, ?_⟩
-      · cases ch
-        · simp only []; rw [dp_setCompare_same _ _ _ (by omega)]; simp [World.cur]
-        · simp only []; rw [dp_setCompare_changed _ _ _ (by omega) hne hcres]; omega
-      · cases ch
-        · intro _; simp only []; rw [dp_setCompare_same _ _ _ (by omega)]; simp [World.codeOf]
-        · intro hd; simp only [] at hd; rw [dp_setCompare_changed _ _ _ (by omega) hne hcres] at hd
-          exact absurd rfl hd
-  | compareErr =>
-    simp only [step]
-    by_cases hc : w.cur = 0
-    · simp only [World.cur] at hc
-      simp only [World.cur, hc, if_true]
-      refine ⟨⟨by simp; omega, by simp; omega, by simpa using hne, by simpa using hcres, by simpa using hares, by simpa using hnw⟩, ?_, ?_⟩
-      · simpa [World.cur, hc] using hle
-      · intro hd; simpa [World.codeOf] using hsound hd
-    · have hc' : ¬ w.codes.length = 0 := by simpa [World.cur] using hc
-      simp only [World.cur, hc', if_false]
-      have hnow : w.clock < w.clock + dt + 1 := by omega
-      obtain ⟨ha, hct', hne', hcres'⟩ :=
-        times_setCompare w.st w.codes.length (w.clock + dt + 1) w.clock true hnow hat hct hne hcres
-      refine ⟨⟨by simp only []; rw [ha]; omega, hct', hne', hcres', by simp only []; rw [ha]; exact hares,
-        by simp only []; rw [ha]; exact hnw⟩, ?_, ?_⟩
-      · simp only []; rw [dp_setCompare_changed _ _ _ (by omega) hne hcres]; omega
-      · intro hd; simp only [] at hd; rw [dp_setCompare_changed _ _ _ (by omega) hne hcres] at hd
-        exact absurd rfl hd
-  | drift c =>
-    simp only [step]
-    refine ⟨⟨by simp; omega, by simp; omega, by simpa using hne, by simpa using hcres, by simpa using hares, by simpa using hnw⟩, by simpa [World.cur] using hle, ?_⟩
-    intro hd; simpa [World.codeOf] using hsound hd
-  | bzip p =>
-    simp only [step]
-    refine ⟨⟨by simp; omega, by simp; omega, by simpa using hne, by simpa using hcres, by simpa using hares, by simpa using hnw⟩, by simpa [World.cur] using hle, ?_⟩
-    intro hd; simpa [World.codeOf] using hsound hd
-  | remove p =>
-    simp only [step]
-    split
-    · refine ⟨⟨by simp; omega, by simp; omega, by simpa using hne, by simpa using hcres, by simpa using hares, by simpa using hnw⟩, by simpa [World.cur] using hle, ?_⟩
-      intro hd; simpa [World.codeOf] using hsound hd
-    · refine ⟨⟨by simp; omega, by simp; omega, by simpa using hne, by simpa using hcres, by simpa using hares, by simpa using hnw⟩, by simpa [World.cur] using hle, ?_⟩
-      intro hd; simpa [World.codeOf] using hsound hd
-  | damage =>
-    simp only [step]
-    refine ⟨⟨by simp, by simp, by simp, by simp, by simp, by simp⟩, by simp [devicePolicy], ?_⟩
-    simp [devicePolicy]
-
-end NA.C13
-
-namespace NA.C13
-
 theorem times_step (w : World) (e : Event × Nat) (h : TimesOK w) : TimesOK (step w e) := by
   obtain ⟨ev, dt⟩ := e
   obtain ⟨hat, hct, hne, hcres, hares, hnw⟩ := h
@@ -255,13 +204,11 @@ theorem times_step (w : World) (e : Event × Nat) (h : TimesOK w) : TimesOK (ste
   | approveOk =>
     simp only [step]; split
     · exact ⟨by simp; omega, by simp; omega, by simpa using hne, by simpa using hcres, by simpa using hares, by simpa using hnw⟩
-    · exact ⟨by simp [setApprove], by simp [setApprove]; omega, by simp [setApprove]; omega,
-        by simpa [setApprove] using hcres, by simp [setApprove], by simp [setApprove]⟩
+    · exact times_of_setApprove w _ _ (w.clock + dt + 1) _ hnow ⟨hat, hct, hne, hcres, hares, hnw⟩ rfl rfl
   | approveFailed =>
     simp only [step]; split
     · exact ⟨by simp; omega, by simp; omega, by simpa using hne, by simpa using hcres, by simpa using hares, by simpa using hnw⟩
-    · exact ⟨by simp [setApprove], by simp [setApprove]; omega, by simp [setApprove]; omega,
-        by simpa [setApprove] using hcres, by simp [setApprove], by simp [setApprove]⟩
+    · exact times_of_setApprove w _ _ (w.clock + dt + 1) _ hnow ⟨hat, hct, hne, hcres, hares, hnw⟩ rfl rfl
   | compare =>
     simp only [step]; split
     · exact ⟨by simp; omega, by simp; omega, by simpa using hne, by simpa using hcres, by simpa using hares, by simpa using hnw⟩
@@ -279,14 +226,6 @@ theorem times_step (w : World) (e : Event × Nat) (h : TimesOK w) : TimesOK (ste
       exact ⟨by simp only []; rw [ha]; omega, hct', hne', hcres', by simp only []; rw [ha]; exact hares,
         by simp only []; rw [ha]; exact hnw⟩
 
-end NA.C13
-
-namespace NA.C13
-
-/-- Shape of the compare slot in every reachable status. -/
-def CmpOK (v : Status) : Prop :=
-  v.compare.result = .uptodate ∨ v.compare.result = .diff ∨ (v.compare.result = .none ∧ v.compare.time = 0)
-
 theorem cmpOK_setCompare (v : Status) (p now : Nat) (ch : Bool) (h : CmpOK v) : CmpOK (setCompare v p ch now) := by
   obtain ⟨⟨ar, ap, atm⟩, ⟨cr, cp, ct⟩⟩ := v
   unfold CmpOK at *
@@ -302,12 +241,129 @@ theorem cmpOK_step (w : World) (e : Event × Nat) (h : CmpOK w.st) : CmpOK (step
   cases ev <;> simp only [step] <;> (try split) <;> (try exact h) <;>
     first
       | exact cmpOK_setCompare _ _ _ _ h
+      | exact cmpOK_setApprove _ _ _ _ h
       | (simp [CmpOK] at h ⊢; try exact h)
 
-/-- Does the event destroy what the status file knows about the latest conclusive observation? -/
-def dirty (w : World) (e : Event) : Bool :=
+/-- The policy derived from the status file stays below the current one and stays what the
+latest conclusive observation established — for EVERY event. -/
+theorem inv_core_step (w : World) (e : Event × Nat) (h : Inv w) :
+    devicePolicy (step w e).st ≤ (step w e).cur ∧
+    (devicePolicy (step w e).st ≠ 0 →
+      (step w e).obs = .carries ((step w e).codeOf (devicePolicy (step w e).st))
+        (devicePolicy (step w e).st)) := by
+  obtain ⟨ev, dt⟩ := e
+  obtain ⟨⟨hat, hct, hne, hcres, hares, hnw⟩, hcmp, hle, hsound⟩ := h
+  cases ev with
+  | newPolicy c =>
+    simp only [step]
+    refine ⟨?_, ?_⟩
+    · simp [World.cur] at *; omega
+    · intro hd
+      have := hsound hd
+      simp only [World.cur] at hle
+      (try simp only [])
+      simp only [World.codeOf] at this ⊢
+      rw [codeAt_append _ _ _ hle]
+      simpa using this
+  | approveOk =>
+    simp only [step]
+    by_cases hc : w.cur = 0
+    · simp only [World.cur] at hc
+      simp only [World.cur, hc, if_true]
+      refine ⟨?_, ?_⟩
+      · simpa [World.cur, hc] using hle
+      · intro hd; simpa [World.codeOf] using hsound hd
+    · have hc' : ¬ w.codes.length = 0 := by simpa [World.cur] using hc
+      simp only [World.cur, hc', if_false]
+      have hdp : devicePolicy (setApprove w.st w.codes.length false (w.clock + dt + 1)) = w.codes.length := by
+        rw [devicePolicy_cases]; simp [setApprove, Status.approveGood]; omega
+      refine ⟨?_, ?_⟩
+      · (try simp only []); rw [hdp]; simp
+      · intro _; (try simp only []); rw [hdp]; simp [World.curCode, World.cur, World.codeOf, codeAt]
+  | approveFailed =>
+    simp only [step]
+    by_cases hc : w.cur = 0
+    · simp only [World.cur] at hc
+      simp only [World.cur, hc, if_true]
+      refine ⟨?_, ?_⟩
+      · simpa [World.cur, hc] using hle
+      · intro hd; simpa [World.codeOf] using hsound hd
+    · have hc' : ¬ w.codes.length = 0 := by simpa [World.cur] using hc
+      simp only [World.cur, hc', if_false]
+      have key := dp_setApprove_failed_eq w.st w.codes.length (w.clock + dt + 1) hne hares hcmp
+      refine ⟨?_, ?_⟩
+      · (try simp only []); rw [key]; simpa [World.cur] using hle
+      · intro hd
+        (try simp only [] at hd ⊢)
+        rw [key] at hd ⊢
+        simpa [World.codeOf] using hsound hd
+  | compare =>
+    simp only [step]
+    by_cases hc : w.cur = 0
+    · simp only [World.cur] at hc
+      simp only [World.cur, hc, if_true]
+      refine ⟨?_, ?_⟩
+      · simpa [World.cur, hc] using hle
+      · intro hd; simpa [World.codeOf] using hsound hd
+    · have hc' : ¬ w.codes.length = 0 := by simpa [World.cur] using hc
+      simp only [World.cur, hc', if_false, World.curCode, World.codeOf]
+      suffices aux : ∀ ch : Bool,
+          devicePolicy (setCompare w.st w.codes.length ch (w.clock + dt + 1)) ≤ w.codes.length ∧
+          (devicePolicy (setCompare w.st w.codes.length ch (w.clock + dt + 1)) ≠ 0 →
+            (if ch = true then Obs.differs else Obs.carries (codeAt w.codes w.codes.length) w.codes.length) =
+              Obs.carries (codeAt w.codes (devicePolicy (setCompare w.st w.codes.length ch (w.clock + dt + 1))))
+                (devicePolicy (setCompare w.st w.codes.length ch (w.clock + dt + 1)))) from aux _
+      intro ch
+      cases ch
+      · refine ⟨?_, ?_⟩
+        · (try simp only []); rw [dp_setCompare_same _ _ _ (by omega)]; simp
+        · intro _; (try simp only []); rw [dp_setCompare_same _ _ _ (by omega)]; simp
+      · refine ⟨?_, ?_⟩
+        · (try simp only []); rw [dp_setCompare_changed _ _ _ (by omega) hne hcres]; omega
+        · intro hd; (try simp only [] at hd); rw [dp_setCompare_changed _ _ _ (by omega) hne hcres] at hd
+          exact absurd rfl hd
+  | compareErr =>
+    simp only [step]
+    by_cases hc : w.cur = 0
+    · simp only [World.cur] at hc
+      simp only [World.cur, hc, if_true]
+      refine ⟨?_, ?_⟩
+      · simpa [World.cur, hc] using hle
+      · intro hd; simpa [World.codeOf] using hsound hd
+    · have hc' : ¬ w.codes.length = 0 := by simpa [World.cur] using hc
+      simp only [World.cur, hc', if_false]
+      refine ⟨?_, ?_⟩
+      · (try simp only []); rw [dp_setCompare_changed _ _ _ (by omega) hne hcres]; omega
+      · intro hd; (try simp only [] at hd); rw [dp_setCompare_changed _ _ _ (by omega) hne hcres] at hd
+        exact absurd rfl hd
+  | drift c =>
+    simp only [step]
+    refine ⟨by simpa [World.cur] using hle, ?_⟩
+    intro hd; simpa [World.codeOf] using hsound hd
+  | bzip p =>
+    simp only [step]
+    refine ⟨by simpa [World.cur] using hle, ?_⟩
+    intro hd; simpa [World.codeOf] using hsound hd
+  | remove p =>
+    simp only [step]
+    split
+    · refine ⟨by simpa [World.cur] using hle, ?_⟩
+      intro hd; simpa [World.codeOf] using hsound hd
+    · refine ⟨by simpa [World.cur] using hle, ?_⟩
+      intro hd; simpa [World.codeOf] using hsound hd
+  | damage =>
+    simp only [step]
+    refine ⟨by simp [devicePolicy], ?_⟩
+    simp [devicePolicy]
+
+/-- The invariant is preserved by every event — no side hypothesis. -/
+theorem inv_step (w : World) (e : Event × Nat) (h : Inv w) : Inv (step w e) :=
+  ⟨times_step w e h.times, cmpOK_step w e h.cmp, (inv_core_step w e h).1, (inv_core_step w e h).2⟩
+
+/-- Does the event destroy what the status file knows about the latest conclusive observation?
+Since the repair of `SetApprove` a failed approve does not. -/
+def dirty (_ : World) (e : Event) : Bool :=
   match e with
-  | .approveFailed => w.st.approveGood && decide (w.st.compare.time < w.st.approve.time)
   | .compareErr | .damage => true
   | _ => false
 
@@ -330,21 +386,6 @@ theorem runC_fst (es : List (Event × Nat)) (s : World × Bool) : (runC es s).1 
 def J (w : World) (cl : Bool) : Prop :=
   cl = true → ∀ c p, w.obs = .carries c p →
     devicePolicy w.st = p ∧ p ≠ 0 ∧ p ≤ w.cur ∧ c = w.codeOf p
-
-theorem dp_setApprove_failed_eq (v : Status) (p now : Nat)
-    (hnd : (v.approveGood && decide (v.compare.time < v.approve.time)) = false)
-    (hne : v.approve.time = v.compare.time → v.compare.time = 0)
-    (hares : v.approve.time = 0 → v.approve.result = .none)
-    (hc : CmpOK v) :
-    devicePolicy (setApprove v p true now) = devicePolicy v := by
-  obtain ⟨⟨ar, ap, atm⟩, ⟨cr, cp, ct⟩⟩ := v
-  unfold CmpOK at hc
-  cases ar <;> cases cr <;>
-    simp_all [devicePolicy, setApprove, Status.approveGood] <;> (try split) <;> (try split) <;> omega
-
-end NA.C13
-
-namespace NA.C13
 
 theorem j_step (w : World) (cl : Bool) (e : Event × Nat) (ht : TimesOK w) (hc : CmpOK w.st)
     (hj : J w cl) : J (step w e) (cleanStep w cl e) := by
@@ -387,7 +428,7 @@ theorem j_step (w : World) (cl : Bool) (e : Event × Nat) (ht : TimesOK w) (hc :
         rw [devicePolicy_cases]; simp [setApprove, Status.approveGood]; omega
       simp only [Obs.carries.injEq] at ho
       obtain ⟨rfl, rfl⟩ := ho
-      refine ⟨hdp, h0', by simp [World.cur], by simp [World.curCode, World.codeOf, World.cur]⟩
+      refine ⟨hdp, h0', by simp, by simp [World.curCode, World.codeOf, World.cur]⟩
   | compare =>
     by_cases h0 : w.cur = 0
     · have h0' : w.codes.length = 0 := by simpa [World.cur] using h0
@@ -401,23 +442,20 @@ theorem j_step (w : World) (cl : Bool) (e : Event × Nat) (ht : TimesOK w) (hc :
       · simp only [hch] at ho ⊢
         simp only [Bool.false_eq_true, if_false, Obs.carries.injEq] at ho
         obtain ⟨rfl, rfl⟩ := ho
-        exact ⟨dp_setCompare_same _ _ _ (by omega), h0', by simp [World.cur], rfl⟩
+        exact ⟨dp_setCompare_same _ _ _ (by omega), h0', by simp, rfl⟩
       · simp [hch] at ho
   | approveFailed =>
     by_cases h0 : w.cur = 0
     · have h0' : w.codes.length = 0 := by simpa [World.cur] using h0
       simp only [step, cleanStep, conclusive, World.cur, h0']
       intro hcl c p ho
-      have hcl' : cl = true := by
-        revert hcl; simp only [Bool.false_and, Bool.false_eq_true, if_false]; split <;> simp
+      have hcl' : cl = true := by simpa [dirty] using hcl
       simpa [World.cur, World.codeOf] using hj hcl' c p (by simpa using ho)
     · have h0' : ¬ w.codes.length = 0 := by simpa [World.cur] using h0
       simp only [step, cleanStep, conclusive, World.cur, h0', if_false]
       intro hcl c p ho
-      have hnd : dirty w .approveFailed = false ∧ cl = true := by
-        revert hcl; simp only [Bool.false_and, Bool.false_eq_true, if_false]; split <;> simp_all
-      obtain ⟨hnd, hcl'⟩ := hnd
-      have := dp_setApprove_failed_eq w.st w.codes.length (w.clock + dt + 1) (by simpa [dirty] using hnd) hne hares hc
+      have hcl' : cl = true := by simpa [dirty] using hcl
+      have := dp_setApprove_failed_eq w.st w.codes.length (w.clock + dt + 1) hne hares hc
       obtain ⟨h1, h2, h3, h4⟩ := hj hcl' c p (by simpa using ho)
       exact ⟨by rw [this]; exact h1, h2, by simpa [World.cur] using h3, by simpa [World.codeOf] using h4⟩
 
